@@ -329,8 +329,8 @@ def unit_force_slope(tier=None, seed=None):
         inr = z3.And(k >= 0, k < n)
         S.names.update(k=k, n=n)
         absc = tip if strategy == "shift" else tm
-        fit = st["fits"][0] if len(st["fits"]) == 1 else None
-        S.ensure("one_linear_fit", fit is not None, case=case)
+        fit = st["fits"][-1] if st["fits"] else None
+        S.ensure("trend_is_fitted", fit is not None, case=case)
         if fit is None:
             return
         m = fit["m"]
